@@ -20,10 +20,11 @@ META = {
         "the worker marks every dequeued item done exactly once on every path, exceptional ones included (imported from "
         "C09.2: otherwise join(timeout) is False forever and stop() never returns); C11.6 (imported from C09.5) stop() joins a snapshot "
         "of the thread list taken under the pool lock and waits for every member until it is not alive (joining the live list "
-        "lets a worker that unregisters itself hide the next one), every started worker is registered in that list, and (C09.6) a new pool is in the stopped state and start() clears the flag before it creates workers."),
+        "lets a worker that unregisters itself hide the next one), every started worker is registered in that list, and (C09.6) a new pool is in the stopped state and start() clears the flag before it creates workers; C11.7 every queue put/get made by stop() and clear() is non-blocking or carries a timeout (put(item, block, timeout): a timeout passed in the block position leaves the wait unbounded)."),
     "does_not_decide": "termination of stop() under all interleavings; behaviour of the timeouts themselves.",
     "rules": {"C11.1": "dominance over the `return True` exits", "C11.2": "normalised branch condition + provenance of the returned value",
-              "C11.3": "ordering by dominance + lockset", "C11.4": "imported C10.7 / C10.7b + store scan", "C11.5": "imported C09.2", "C11.6": "imported C09.5, C09.6"},
+              "C11.3": "ordering by dominance + lockset", "C11.4": "imported C10.7 / C10.7b + store scan", "C11.5": "imported C09.2", "C11.6": "imported C09.5, C09.6",
+              "C11.7": "E5 blocking-call table: block / timeout arguments of the queue calls"},
     "assumptions": ["queue.Queue.join returns when unfinished_tasks reaches 0; task_done notifies all_tasks_done at 0 (audited from the stdlib source in the thorough tier)"],
 }
 
@@ -147,6 +148,25 @@ def check(ck):
                 ck.require("__lock" not in cl.held(fc, n), "C11.3", "%s: waits for running tasks outside the pool lock" % q.fn(fc), "join() without the lock",
                            "clear() waits for the running tasks while holding the pool lock: a running task that enqueues (needs the lock) deadlocks with it", q.loc(fc, n))
     ck.floor("C11.3", 7)
+
+    # ---- C11.7 no unbounded queue wait in stop() / clear() --------------------------------------------------------------
+    n7 = 0
+    for f7 in (fs, fc):
+        for (n, c, kind) in cl.blocking_calls(f7):
+            if not kind.startswith(("Queue.put", "Queue.get")):
+                continue
+            n7 += 1
+            ck.require("no timeout" not in kind, "C11.7", "%s: `%s` is bounded" % (q.fn(f7), kind.split(" ")[0]), "non-blocking or with a timeout",
+                       "`%s` can wait without bound (block argument `%s`, no timeout): with a full queue stop() never returns%s" % (
+                           dump(c)[:70], dump(c.args[1]) if len(c.args) > 1 else "default True",
+                           ", and it waits while holding the pool lock the workers need to make room" if "__lock" in cl.held(f7, n) else ""),
+                       q.loc(f7, n))
+    for n in gc.live_nodes():
+        for c in node_calls(n):
+            if dump(c.func) in ("self._queue.get_nowait", "self._queue.put_nowait"):
+                n7 += 1
+                ck.ok("C11.7", "%s: `%s` is bounded" % (q.fn(fc), dump(c.func)), "non-blocking form", q.loc(fc, n))
+    ck.floor("C11.7", 2)
 
     # ---- C11.4 / C11.5 / C11.6: shared clauses ---------------------------------------------------------------
     from rules import c09, c10
